@@ -25,7 +25,7 @@ ASSUMPTIONS = ["the socket model (recvmsg/sendmsg/pktinfo) is faithful to Linux"
                "call_soon FIFO order of asyncio is kept; timers and arrivals at the same instant are processed arrivals first",
                "time comparisons use a tolerance of 1e-9 s"]
 EXPECTED_PROBES = ["piggyback_with_unknown_token", "request_cancelled_while_exchange_open", "mid_collision_with_peer_message", "giveup", "ack_tie", "ack_pre_eps", "ack_post_eps", "rst", "wrong_mid", "wrong_src",
-                   "server_con", "mr0", "late_ack", "separate_response_during_other_exchange"]
+                   "server_con", "mr0", "late_ack", "separate_response_during_other_exchange", "send_raised_for_a_retransmission"]
 
 KINDS = ["ack", "rst", "piggy", "piggy_wrongtoken", "wrongmid_ack", "wrongmid_rst", "wrongsrc_ack", "wrongsrc_rst", "wrongport_ack"]
 POSITIONS = ["now", "mid", "pre", "tie", "post", "late"]
@@ -90,6 +90,9 @@ def gen(r, tier):
             # an earlier request to the same peer that was acknowledged with an empty ACK; its separate response
             # arrives while THIS message's exchange is open (factor x this message's ACK_TIMEOUT after its start)
             "companion": (r.choice([0.005, 0.5, 0.99, 1.5, 2.5, 5.0, 12.0]) if (kind == "request" and r.chance(0.2)) else None),
+            # the transport's send() RAISES for one of the copies (not the first): a datagram layer that throws instead of
+            # reporting an error -- that copy is lost before the wire, everything else goes on as scheduled
+            "send_raises": (r.randint(1, max(1, mr)) if (kind == "request" and mr >= 1 and r.chance(0.12)) else None),
         })
     net = faults.swarm(r, kinds=("drop", "dup", "delay"))
     return {"msgs": msgs, "net": net, "stall": (r.chance(0.15))}
@@ -324,6 +327,33 @@ def execute(sim, scn):
         return server, client
 
     server, client = loop.run_until_complete(setup())
+    # fault: the message interface's send() raises for the k-th copy of a message (k >= 1)
+    mi = client.request_interfaces[0].token_interface.message_interface
+    mi_send = mi.send
+    copies_seen = {}
+    raise_for = {m["id"]: m["send_raises"] for m in msgs if m.get("send_raises")}
+
+    def faulty_send(message):
+        path = message.opt.uri_path
+        mid_ = None
+        if message.code.is_request() and path and path[0].startswith("x") and path[0][1:].isdigit():
+            mid_ = int(path[0][1:])
+        if mid_ in raise_for and int(message.mtype) == rc.CON:
+            k = copies_seen.get(mid_, 0)
+            copies_seen[mid_] = k + 1
+            if k == raise_for[mid_]:
+                raw = message.encode()
+                sa = message.remote.sockaddr
+                sim.probe("send_raised_for_a_retransmission")
+                sim.net.count("fault.send_raises")
+                sim.log("net", "send-raises", mid_, k)
+                # what the oracle sees of this copy: attempted at this instant, lost before the wire
+                tap({"msg": rc.decode(raw), "forged": False, "src": sim.local_addr(client), "dst": (sa[0], sa[1]), "data": raw,
+                     "deliveries": [], "t": loop.now})
+                raise RuntimeError("injected: transport send() raised")
+        return mi_send(message)
+    if raise_for:
+        mi.send = faulty_send
     peers = {}
     for m in msgs:
         ip = common.PEER_IPS[m["peer"] % len(common.PEER_IPS)]
